@@ -325,6 +325,41 @@ def native_layouts(chk):
         else:
             chk.ok()
     chk.sample({'native layouts': sorted(layouts), 'detectors': len(oracle.MIR_NAME)})
+    # WHICH construct's first byte counts is the oracle's business (DESIGN 8): on the layouts that keep every byte offset of the printed
+    # probe (LF, every second line feed a blank, one token per line) the lines of analyze_for_* are held against the lines on which the
+    # nodes the oracle flags begin -- a detector that returns the location of another sub-node (the last part of a string, the condition
+    # instead of the call) reports another line as soon as the sub-nodes stand on different lines
+    b2 = sol.TreeBuilder()
+    su2 = c15.probe_file(b2)
+    text2, starts2 = sol.print_source(su2)
+    if text2 == base:
+        same_offsets = {nm: t for nm, t in layouts.items() if nm.startswith('probe ') and len(t.encode()) == len(base.encode())
+                        and all(a == b_ or (a in ' \n' and b_ in ' \n') for a, b_ in zip(t, base))}
+        by_layout = {}
+        for i, (lname, d, text) in enumerate(meta):
+            if lname in same_offsets and res[2 * i + 1][0] == 'OK':
+                by_layout[(lname, d)] = [int(x) for x in res[2 * i + 1][1].split(',') if x]
+        for d in oracle.MIR_NAME:
+            try:
+                cls = oracle.classify_file(d, su2, None, {'version': (0, 8, 16)})
+            except KeyError:
+                continue                               # the slot-packing detectors have their own decision procedure (C10), no node oracle
+            for lname, t in same_offsets.items():
+                if (lname, d) not in by_layout:
+                    continue
+                raw = t.encode()
+                line = lambda lid: 1 + raw[:starts2[lid]].count(b'\n')
+                must = sorted({line(lid) for _, lid, flag, never in cls if flag is True and lid in starts2})
+                may = {line(lid) for _, lid, flag, never in cls if never is not True and lid in starts2}
+                got = by_layout[(lname, d)]
+                missing, extra = [l for l in must if l not in got], [l for l in got if l not in may]
+                if missing or extra:
+                    chk.violation('analyze:%s:construct-line' % oracle.CATEGORY[d],
+                                  'analyze_for_%s(%s) on the layout `%s` reports lines %r; the flagged constructs begin on lines %r%s%s' % (
+                                      oracle.CATEGORY[d], d, lname, got, must, ' (missing %r)' % missing if missing else '', ' (no construct of the pattern begins on %r)' % extra if extra else ''),
+                                  {'job': 'analyze_between', 'category': oracle.CATEGORY[d], 'detector': d, 'source': t, 'must': must, 'may': sorted(may), 'observed': got})
+                else:
+                    chk.ok()
     # the same layouts as files of a directory, through the compiled analyze_dir (the reader of the file is part of "the lines solstat
     # reports for a file"): per file and pattern the lines must be those of the detector's own locations in the bytes of the file
     import os, tempfile, shutil
